@@ -451,7 +451,25 @@ def _six_digit_arc(se, x, i):
         ref = se.Path("M %s %s" % (seg.start, seg.d()))
         arc = ref[1]
         arc *= q.transform
-        return ob.seg_points(arc)
+        return ob.arc_samples(arc)
+    except Exception:
+        return None
+
+
+def _full_precision_arc(se, x, i):
+    """The same journey with the radii and rotation spelled with 17 significant digits: if that gives the source
+    arc back, six-digit rounding is the only thing that stands between the source and what was read."""
+    try:
+        import math
+
+        q = se.Path(x.get("_elem"))
+        seg = q.segments(transformed=False)[i]
+        text = "M %r,%r A %r,%r %r %d,%d %r,%r" % (
+            float(seg.start.x), float(seg.start.y), float(seg.rx), float(seg.ry), math.degrees(float(seg.get_rotation())),
+            1 if abs(seg.sweep) > math.pi else 0, 1 if seg.sweep > 0 else 0, float(seg.end.x), float(seg.end.y))
+        arc = se.Path(text)[1]
+        arc *= q.transform
+        return ob.arc_samples(arc)
     except Exception:
         return None
 
@@ -478,11 +496,22 @@ def compare_generations(se, a, b, tol, V, tag, what):
                 pa2, pb2 = [pa[0], pa[1]], [pb[0], pb[1]]
                 if not ob.close_val(pa2, pb2, 0.0, tol):
                     raise V(tag, ["geometry", x["cls"], ka], "%s: shape data-n=%s (%s) segment %d Arc endpoints %r became %r (tolerance %.3g)" % (what, x["n"], x["cls"], i, pa2, pb2, tol))
-                if not ob.close_val([pa[2], pa[3], pa[4]], [pb[2], pb[3], pb[4]], 0.0, tol * 50) or not ob.close_num(pa[5], pb[5], 0.0, 1e-4):
+                # what is drawn in between: centre, interior points, sweep (which pair of conjugate radii stands for
+                # the ellipse is a matter of representation)
+                try:
+                    sa, sb = ob.arc_samples(x["_path"][i]), ob.arc_samples(y["_path"][i])
+                except Exception:
+                    sa, sb = [pa[2], pa[3], pa[4], None, pa[5]], [pb[2], pb[3], pb[4], None, pb[5]]
+
+                def near(u, v):
+                    return ob.close_val(u[:4], v[:4], 0.0, tol * 50) and ob.close_num(u[4], v[4], 0.0, 1e-4)
+
+                if not near(sa, sb):
                     six = _six_digit_arc(se, x, i) if x["cls"] == "Path" else None
-                    if six is not None and ob.close_val([six[2], six[3], six[4]], [pb[2], pb[3], pb[4]], 0.0, tol * 50) and ob.close_num(six[5], pb[5], 0.0, 1e-4):
-                        raise V(tag, ["geometry", x["cls"], "Arc-shape-six-digit-radii"], "%s: shape data-n=%s (Path) segment %d: the arc came back exactly as the six-significant-digit spelling of its radii/rotation in d() draws it: centre/axes/sweep %r became %r (tolerance %.3g)" % (what, x["n"], i, pa[2:], pb[2:], tol * 50))
-                    raise V(tag, ["geometry", x["cls"], "Arc-shape"], "%s: shape data-n=%s (%s) segment %d Arc centre/axes/sweep %r became %r (tolerance %.3g)" % (what, x["n"], x["cls"], i, pa[2:], pb[2:], tol * 50))
+                    full = _full_precision_arc(se, x, i) if six is not None else None
+                    if six is not None and full is not None and near(full, sa) and near(six, sb):
+                        raise V(tag, ["geometry", x["cls"], "Arc-shape-six-digit-radii"], "%s: shape data-n=%s (Path) segment %d: the arc came back exactly as the six-significant-digit spelling of its radii/rotation in d() draws it (a 17-digit spelling gives the source arc): centre/interior points/sweep %r became %r (tolerance %.3g)" % (what, x["n"], i, sa, sb, tol * 50))
+                    raise V(tag, ["geometry", x["cls"], "Arc-shape"], "%s: shape data-n=%s (%s) segment %d Arc centre/interior points/sweep %r became %r (tolerance %.3g)" % (what, x["n"], x["cls"], i, sa, sb, tol * 50))
             elif not ob.close_val(pa, pb, 0.0, tol):
                 raise V(tag, ["geometry", x["cls"], ka], "%s: shape data-n=%s (%s) segment %d %s %r became %r (tolerance %.3g)" % (what, x["n"], x["cls"], i, ka, pa, pb, tol))
 
